@@ -11,7 +11,7 @@ PROJ = {
     "TraceEvents": {"kinds": {"tickAll": ["funds", "fok"], "stepB": ["m", "t", "s", "funds", "mkts", "runs", "idxv", "iok", "idxh", "exec"],
                               "stepE": ["m", "t", "s", "mkts", "runs", "idxv", "iok", "idxh", "exec"], "ret": ["batch"],
                               "acc": ["m", "t", "id", "obj", "buy", "mo", "px", "vol", "ttl", "mp", "p0", "run"],
-                              "round": ["m", "t", "fills", "p0"], "abort": None}},
+                              "round": ["m", "t", "fills", "p0"], "abort": None, "init": []}},
     "TraceClock": {"kinds": {"tickAllB": ["clocks"], "tick": ["m", "t", "idx"], "tickAll": ["clocks"],
                              "sessB": ["s", "start", "steps", "clocks"], "stepB": ["m", "t", "clocks"],
                              "stepE": ["m", "t", "clocks"], "sessE": ["s", "clocks"], "abort": None}},
@@ -55,6 +55,16 @@ def project(run, spec):
         hdr["exact"] = run["exact"]
     if "evhdr" in run:
         hdr.update(run["evhdr"])
+        if init is None:
+            # the configuration was refused at setup: no init record; keep the header shape the trace spec expects
+            n = len(run["evhdr"]["w"])
+            hdr.setdefault("idx", [bool(c) for c in run["evhdr"]["comps"]])
+            hdr.setdefault("sess", [])
+            hdr.setdefault("hft", [])
+            hdr.setdefault("cs", [0] * n)
+            hdr.setdefault("hooks", [])
+            hdr.setdefault("bump", [])
+            hdr.setdefault("exact", True)
     return hdr
 
 
@@ -122,7 +132,10 @@ def build_runs(tier, seed, prop):
     from . import drive_run, scenarios_run
     if prop in EVENT_PROPS:
         from . import drive_events
-        return drive_events.generate(N_EVENT_RUNS[tier], sub_seed(seed, "events", prop), kinds=EVENT_KINDS[prop])
+        runs = drive_events.generate(N_EVENT_RUNS[tier], sub_seed(seed, "events", prop), kinds=EVENT_KINDS[prop])
+        if prop == "C17":
+            runs += drive_events.negative_index_runs(seed)
+        return runs
     runs = drive_run.generate(N_RUNS[tier], sub_seed(seed, "runs"))
     for r in runs:
         r["src"] = "random-config"
